@@ -13,9 +13,11 @@ pub fn run(ctx: &Ctx) -> Outcome {
     {
         use crate::solo::threads::*;
         let tc = ThreadsCfg { base_depth: ctx.tier.pick(2, 3), preemption_bound: ctx.tier.pick(Some(2), Some(3)), max_runs_per_case: ctx.tier.pick(3_000, 200_000), with_suffix: false, triples: false, doubles: true, budget_share: 0.3 };
-        explore_threads(ctx, &tx_flow(ctx.tier, 8, 8, 0), &tc, &mut out);
-        explore_threads(ctx, &tx_flow(ctx.tier, 8, 32, 0), &tc, &mut out);
-        let tc1 = ThreadsCfg { base_depth: ctx.tier.pick(1, 2), ..tc };
+        // (quick: two consecutive writes only on the drivers whose ring can grow, from shallower states)
+        let tc0 = ThreadsCfg { doubles: ctx.tier == Tier::Thorough, budget_share: 0.5, ..tc };
+        explore_threads(ctx, &tx_flow(ctx.tier, 8, 8, 0), &tc0, &mut out);
+        let tc1 = ThreadsCfg { base_depth: ctx.tier.pick(1, 2), budget_share: 0.6, ..tc };
+        explore_threads(ctx, &tx_flow(ctx.tier, 8, 32, 0), &ThreadsCfg { base_depth: ctx.tier.pick(1, 3), budget_share: 0.5, ..tc }, &mut out);
         explore_threads(ctx, &tx_grow(ctx.tier, 0), &tc1, &mut out);
     }
     out.merge(crate::exhaust::ring::run(ctx));
